@@ -32,6 +32,7 @@ type walker struct {
 	// model parameters other than the defaults (nil = defaults)
 	extra parameters.Map
 	count int // operations so far (long walks)
+	rawCount int // states looked at inside raw call sequences
 	// quiet: the walk is not sent to the Lean model (no protocol lines); the direct clauses are evaluated all the same,
 	// and values are compared with the fresh model bit for bit (the long no-drift walks)
 	quiet bool
@@ -170,6 +171,10 @@ func (w *walker) checkState(after string, s *Snap) {
 		if !near(u[3], u[1]+u[2]) {
 			w.fail("C11:tn-is-pn-plus-dn", "catchment:unit-tn-not-pn-plus-dn", fmt.Sprintf("after %s: unit %d TN %v PN %v DN %v (set %s)", after, p, u[3], u[1], u[2], s.enc))
 		}
+	}
+	// C11, output side: the figures of the Solution built from this state (every third state looked at)
+	if w.count%3 == 1 {
+		w.encodeables(after)
 	}
 	// C01: a freshly initialised model to which exactly this set is applied
 	r := w.ref.at(s.flags)
@@ -336,6 +341,10 @@ func (w *walker) rawStep(step string, i int, after string) bool {
 
 // aggregates: C11's clauses alone, on one snapshot.
 func (w *walker) aggregates(after string, s *Snap, pus []planningunit.Id) {
+	w.rawCount++
+	if w.rawCount%3 == 1 {
+		w.encodeables(after) // the theorems of Properties/C11Out.lean hold after ANY call sequence
+	}
 	for v := range varNames {
 		sum := 0.0
 		for _, pu := range pus {
